@@ -1,16 +1,584 @@
-import SiaModel.Ledger.Model
-/-! # C08 — boundaries (theorems under development by the ledger proof work; see DESIGN.md §6 C08) -/
+import SiaProofs.Lemmas.LedgerC08V1
+import SiaProofs.Lemmas.LedgerC08V2
+/-!
+# C08 — height- and time-dependent rules flip exactly at their boundaries (ledger model)
+
+Every validator of the ledger model is characterised in `Lemmas/LedgerC08V1.lean` /
+`LedgerC08V2.lean` as the conjunction of its rules (`…_ok_iff`).  The theorems here single out the
+height rules.  Each rule comes in up to three forms:
+
+* `c08_X`            : `accept ↔ (bound rule) ∧ (all other rules)`, the other rules being an explicit
+                        predicate that does not mention the bound — equivalently the *threshold form*
+                        `(other rules) → (accept ↔ bound ≤ child)` (`c08_X_threshold`);
+* `c08_X_reject`     : a whole transaction containing one offending item is not accepted
+                        (`Rejected` = rejects without panicking where that is true, `NotOk` otherwise);
+* `example`s         : a concrete transaction accepted exactly at the bound and rejected one block
+                        earlier/later (by evaluation of the model).
+-/
 namespace C08
 open Sia.Ledger
 
-/-- v2 transactions are rejected below the allow height -/
-theorem c08_v2_allowed_from (ms : Mid) (t : Txn2) (w : Nat) (h : ms.base.child < ms.base.P.v2Allow) :
-    validateV2Transaction ms t w = reject "v2 transactions are not allowed until v2 hardfork begins" := by
-  simp [validateV2Transaction, h, reject, bind, Except.bind]
+-- ------------------------------------------------------------------ lifting to whole transactions
 
-/-- v1 transactions are rejected from the require height on -/
-theorem c08_v1_forbidden_from (ms : Mid) (t : Txn1) (pid w : Nat) (h : ms.base.child ≥ ms.base.P.v2Require) :
-    validateTransaction ms t pid w = reject "v1 transactions are not allowed after v2 hardfork is complete" := by
-  simp [validateTransaction, h, reject, bind, Except.bind]
+theorem v2Txn_notOk_of_sc {ms : Mid} {t : Txn2} {mw : Nat} (h : NotOk (validateV2Siacoins ms t)) :
+    NotOk (validateV2Transaction ms t mw) := by
+  intro r hr; exact h () ((validateV2Transaction_ok_iff ms t mw).1 hr).2.2.2.2.1
+
+theorem v2Txn_notOk_of_sf {ms : Mid} {t : Txn2} {mw : Nat} (h : NotOk (validateV2Siafunds ms t)) :
+    NotOk (validateV2Transaction ms t mw) := by
+  intro r hr; exact h () ((validateV2Transaction_ok_iff ms t mw).1 hr).2.2.2.2.2.1
+
+theorem v2Txn_notOk_of_fc {ms : Mid} {t : Txn2} {mw : Nat} (h : NotOk (validateV2FileContracts ms t)) :
+    NotOk (validateV2Transaction ms t mw) := by
+  intro r hr; exact h () ((validateV2Transaction_ok_iff ms t mw).1 hr).2.2.2.2.2.2.1
+
+theorem v1Txn_notOk_of_sc {ms : Mid} {t : Txn1} {pid mw : Nat} (h : NotOk (validateSiacoins ms t)) :
+    NotOk (validateTransaction ms t pid mw) := by
+  intro r hr; exact h () ((validateTransaction_ok_iff ms t pid mw).1 hr).2.2.2.2.1
+
+theorem v1Txn_notOk_of_sf {ms : Mid} {t : Txn1} {pid mw : Nat} (h : NotOk (validateSiafunds ms t)) :
+    NotOk (validateTransaction ms t pid mw) := by
+  intro r hr; exact h () ((validateTransaction_ok_iff ms t pid mw).1 hr).2.2.2.2.2.1
+
+theorem v1Txn_notOk_of_fc {ms : Mid} {t : Txn1} {pid mw : Nat} (h : NotOk (validateFileContracts ms t pid)) :
+    NotOk (validateTransaction ms t pid mw) := by
+  intro r hr; exact h () ((validateTransaction_ok_iff ms t pid mw).1 hr).2.2.2.2.2.2.1
+
+theorem v1Txn_notOk_of_sig {ms : Mid} {t : Txn1} {pid mw : Nat} (h : NotOk (validateSignatures t)) :
+    NotOk (validateTransaction ms t pid mw) := by
+  intro r hr; exact h () ((validateTransaction_ok_iff ms t pid mw).1 hr).2.2.2.2.2.2.2.2
+
+theorem validateV2CurrencyOverflow_noPanic (t : Txn2) : NoPanic (validateV2CurrencyOverflow t) := by
+  unfold validateV2CurrencyOverflow
+  simp only []
+  repeat' split
+  all_goals simp
+
+theorem validateCurrencyOverflow_noPanic (t : Txn1) : NoPanic (validateCurrencyOverflow t) := by
+  unfold validateCurrencyOverflow
+  split <;> simp
+
+theorem validateMinimumValues_noPanic (t : Txn1) : NoPanic (validateMinimumValues t) := by
+  unfold validateMinimumValues
+  split <;> simp
+
+theorem v2Txn_rejected_of_sc {ms : Mid} {t : Txn2} {mw : Nat} (h : Rejected (validateV2Siacoins ms t)) :
+    Rejected (validateV2Transaction ms t mw) := by
+  rw [validateV2Transaction_eq]; unfold v2TxnChecks
+  split
+  · simp
+  refine bind_rejected_of (validateV2CurrencyOverflow_noPanic t) (fun _ => ?_)
+  split
+  · simp
+  split
+  · simp
+  exact bind_rejected_left _ h
+
+-- ------------------------------------------------------------------ fixtures for the examples
+
+namespace Ex
+def P0 : Params :=
+  { initialCoinbase := 300000, minimumCoinbase := 30000, maturityDelay := 5, blocksPerYear := 1200,
+    hfDevAddr := 1, hfTax := 2, hfStorageProof := 3, hfFoundation := 4, v2Allow := 10, v2Require := 20,
+    ephemeralFix := 12, voidAddr := 0, devOldAddr := 900, devNewAddr := 901 }
+/-- a siacoin element maturing at height 15 and one that is always mature -/
+def e1 : ScElem := { id := 101, value := 50, addr := 7, maturity := 15, leaf := some 3 }
+def e0 : ScElem := { id := 100, value := 50, addr := 7, maturity := 0, leaf := some 2 }
+/-- a v1 contract whose proof window is [15, 18) -/
+def c1 : Fc1Elem :=
+  { id := 301, leaf := some 5,
+    fc := { filesize := 0, root := 0, windowStart := 15, windowEnd := 18, payout := 100,
+            valid := [{ value := 60, addr := 1 }], missed := [{ value := 60, addr := 2 }], unlockHash := 9, revNum := 1 } }
+/-- a v2 contract with proof height 15 and expiration height 18 -/
+def c2 : Fc2Elem :=
+  { id := 501, leaf := some 9,
+    fc := { capacity := 10, filesize := 5, root := 0, proofHeight := 15, expHeight := 18,
+            renter := { value := 60, addr := 1 }, host := { value := 40, addr := 2 }, missedHost := 30,
+            totalCollateral := 20, renterKey := 11, hostKey := 12, revNum := 1 } }
+/-- the ledger at child height `child`; block `h` of the chain has id `1000 + h` -/
+def L (child : Nat) : Ledger :=
+  { (default : Ledger) with P := P0, child := child, sc := [e0, e1], fc1 := [c1], fc2 := [c2], chain := (List.range child).map (fun h => (h, 1000 + h)) }
+def M (child : Nat) : Mid := newMid (L child)
+
+def txn1 : Txn1 := { (default : Txn1) with sigsOk := true, weight := 5 }
+def txn2 : Txn2 := { (default : Txn2) with attsOk := true, weight := 5 }
+end Ex
+open Ex
+
+-- ================================================================= maturity, v2
+
+/-- every rule of `validateV2Siacoins` except the maturity of the inputs' parents -/
+structure V2ScOther (ms : Mid) (t : Txn2) : Prop where
+  inputs : ∀ sci ∈ t.scIns, ms.isSpent sci.parent.id = false ∧ ScIn2Present ms sci ∧ sci.addrOk = true ∧ sci.authOk = true
+  nodup : (t.scIns.map (·.parent.id)).Nodup
+  balance : v2ScBalance t = .ok ()
+
+/-- `validateV2Siacoins` accepts iff every input's parent has `maturity ≤ childHeight` and the
+remaining rules (which do not look at maturity heights, except that an ephemeral parent must be
+presented with the maturity it was created with) hold. -/
+theorem c08_maturity_v2 (ms : Mid) (t : Txn2) :
+    validateV2Siacoins ms t = .ok () ↔
+      ((∀ sci ∈ t.scIns, sci.parent.maturity ≤ ms.base.child) ∧ V2ScOther ms t) := by
+  rw [validateV2Siacoins_ok_iff]
+  constructor
+  · rintro ⟨h1, h2, h3⟩
+    exact ⟨fun s hs => (h1 s hs).mature, ⟨fun s hs => ⟨(h1 s hs).1, (h1 s hs).3, (h1 s hs).4, (h1 s hs).5⟩, h2, h3⟩⟩
+  · rintro ⟨h1, ⟨h2, h3, h4⟩⟩
+    exact ⟨fun s hs => ⟨(h2 s hs).1, h1 s hs, (h2 s hs).2.1, (h2 s hs).2.2.1, (h2 s hs).2.2.2⟩, h3, h4⟩
+
+/-- threshold form -/
+theorem c08_maturity_v2_threshold (ms : Mid) (t : Txn2) (hother : V2ScOther ms t) :
+    validateV2Siacoins ms t = .ok () ↔ ∀ sci ∈ t.scIns, sci.parent.maturity ≤ ms.base.child := by
+  rw [c08_maturity_v2]; exact ⟨fun h => h.1, fun h => ⟨h, hother⟩⟩
+
+/-- a v2 transaction with an immature input is rejected (no panic) whatever else it contains -/
+theorem c08_maturity_v2_reject (ms : Mid) (t : Txn2) (mw : Nat) (sci : ScIn2) (hm : sci ∈ t.scIns)
+    (h : sci.parent.maturity > ms.base.child) : Rejected (validateV2Transaction ms t mw) := by
+  apply v2Txn_rejected_of_sc
+  apply validateV2Siacoins_rejected
+  rintro ⟨h1, _⟩
+  have := (h1 sci hm).mature
+  omega
+
+def tSpend2 (e : ScElem) : Txn2 :=
+  { txn2 with scIns := [{ parent := e, addrOk := true, authOk := true }], scOuts := [(201, { value := 40, addr := 8 })], fee := 10 }
+
+example : validateV2Transaction (M 15) (tSpend2 e1) 100 = .ok () := by decide
+example : validateV2Transaction (M 14) (tSpend2 e1) 100 = .error (.reject "siacoin input has immature parent") := by decide
+example : V2ScOther (M 14) (tSpend2 e1) := ⟨by decide, by decide, by decide⟩
+
+-- ================================================================= maturity and timelock, v1 siacoin inputs
+
+/-- the maturity rule of a v1 siacoin input -/
+def ScIn1Mature (ms : Mid) (t : Txn1) (sci : ScIn1) : Prop :=
+  ∀ p, ms.scElement t.supp sci.parent = some p → p.maturity ≤ ms.base.child
+
+/-- every rule of a v1 siacoin input except maturity (`sum` = value of the inputs before it) -/
+def ScIn1OkButMaturity (ms : Mid) (t : Txn1) (sum : Cur) (sci : ScIn1) : Prop :=
+  ∃ p, ms.scElement t.supp sci.parent = some p ∧ sci.timelock ≤ ms.base.child ∧ ms.isSpent sci.parent = false ∧
+    sci.ucAddr = p.addr ∧ sum + p.value < curLimit
+
+/-- every rule of a v1 siacoin input except the timelock -/
+def ScIn1OkButTimelock (ms : Mid) (t : Txn1) (sum : Cur) (sci : ScIn1) : Prop :=
+  ∃ p, ms.scElement t.supp sci.parent = some p ∧ p.maturity ≤ ms.base.child ∧ ms.isSpent sci.parent = false ∧
+    sci.ucAddr = p.addr ∧ sum + p.value < curLimit
+
+theorem scIn1Ok_iff_maturity (ms : Mid) (t : Txn1) (sum : Cur) (sci : ScIn1) :
+    ScIn1Ok ms t sum sci ↔ (ScIn1OkButMaturity ms t sum sci ∧ ScIn1Mature ms t sci) := by
+  unfold ScIn1Ok ScIn1OkButMaturity ScIn1Mature
+  constructor
+  · rintro ⟨p, hp, ⟨h1, h2, h3, h4⟩, h5⟩
+    refine ⟨⟨p, hp, h1, h2, h3, h5⟩, ?_⟩
+    intro q hq; rw [hp] at hq; cases hq; exact h4
+  · rintro ⟨⟨p, hp, h1, h2, h3, h5⟩, h4⟩
+    exact ⟨p, hp, ⟨h1, h2, h3, h4 p hp⟩, h5⟩
+
+theorem scIn1Ok_iff_timelock (ms : Mid) (t : Txn1) (sum : Cur) (sci : ScIn1) :
+    ScIn1Ok ms t sum sci ↔ (ScIn1OkButTimelock ms t sum sci ∧ sci.timelock ≤ ms.base.child) := by
+  unfold ScIn1Ok ScIn1OkButTimelock
+  constructor
+  · rintro ⟨p, hp, ⟨h1, h2, h3, h4⟩, h5⟩
+    exact ⟨⟨p, hp, h4, h2, h3, h5⟩, h1⟩
+  · rintro ⟨⟨p, hp, h4, h2, h3, h5⟩, h1⟩
+    exact ⟨p, hp, ⟨h1, h2, h3, h4⟩, h5⟩
+
+/-- `validateSiacoins` (v1) accepts iff every input's parent has `maturity ≤ childHeight` and the
+remaining rules hold. -/
+theorem c08_maturity_v1 (ms : Mid) (t : Txn1) :
+    validateSiacoins ms t = .ok () ↔
+      ((∀ sci ∈ t.scIns, ScIn1Mature ms t sci) ∧
+        (FoldAll (ScIn1OkButMaturity ms t) (fun s sci => s + scIn1Value ms t sci) 0 t.scIns ∧
+         v1ScBalance t (t.scIns.foldl (fun s sci => s + scIn1Value ms t sci) 0) = .ok ())) := by
+  rw [validateSiacoins_ok_iff, foldAll_congr (scIn1Ok_iff_maturity ms t), foldAll_and_iff]
+  constructor
+  · rintro ⟨⟨h1, h2⟩, h3⟩; exact ⟨h2, h1, h3⟩
+  · rintro ⟨h2, h1, h3⟩; exact ⟨⟨h1, h2⟩, h3⟩
+
+/-- a v1 transaction spending an immature output is not accepted -/
+theorem c08_maturity_v1_reject (ms : Mid) (t : Txn1) (pid mw : Nat) (sci : ScIn1) (p : ScElem)
+    (hm : sci ∈ t.scIns) (hp : ms.scElement t.supp sci.parent = some p) (h : p.maturity > ms.base.child) :
+    NotOk (validateTransaction ms t pid mw) := by
+  apply v1Txn_notOk_of_sc
+  intro r hr
+  have := ((c08_maturity_v1 ms t).1 hr).1 sci hm p hp
+  omega
+
+def tSpend1 (e : ScElem) (timelock : Nat) : Txn1 :=
+  { txn1 with scIns := [{ parent := e.id, timelock := timelock, ucAddr := 7 }], scOuts := [(201, { value := 40, addr := 8 })], fees := [10], supp := { (default : Supp1) with scIns := [e] } }
+
+example : validateTransaction (M 15) (tSpend1 e1 0) 1015 100 = .ok () := by decide
+example : validateTransaction (M 14) (tSpend1 e1 0) 1014 100 = .error (.reject "siacoin input has immature parent") := by decide
+
+-- ================================================================= unlock-condition timelock, v1
+
+/-- every rule of a v1 siafund input except the timelock -/
+def SfIn1OkButTimelock (ms : Mid) (t : Txn1) (sfi : SfIn1) : Prop :=
+  ∃ p, ms.sfElement t.supp sfi.parent = some p ∧ ms.isSpent sfi.parent = false ∧
+    (sfi.ucAddr = p.addr ∨
+      (ms.base.child ≥ ms.base.P.hfDevAddr ∧ p.addr = ms.base.P.devOldAddr ∧ sfi.ucAddr = ms.base.P.devNewAddr))
+
+/-- the timelock of the unlock conditions of siacoin inputs, siafund inputs and contract revisions:
+each validator accepts iff all timelocks are `≤ childHeight` and the other rules hold. -/
+theorem c08_uc_timelock_v1 (ms : Mid) (t : Txn1) :
+    (validateSiacoins ms t = .ok () ↔
+      ((∀ sci ∈ t.scIns, sci.timelock ≤ ms.base.child) ∧
+        (FoldAll (ScIn1OkButTimelock ms t) (fun s sci => s + scIn1Value ms t sci) 0 t.scIns ∧
+         v1ScBalance t (t.scIns.foldl (fun s sci => s + scIn1Value ms t sci) 0) = .ok ()))) ∧
+    (validateSiafunds ms t = .ok () ↔
+      ((∀ sfi ∈ t.sfIns, sfi.timelock ≤ ms.base.child) ∧
+        ((∀ sfi ∈ t.sfIns, SfIn1OkButTimelock ms t sfi) ∧
+         v1SfBalance t (t.sfIns.foldl (fun s sfi => (s + sfIn1Value ms t sfi) % u64Limit) 0) = .ok ()))) ∧
+    (∀ r p, ms.fc1Element t.supp r.parent = some p →
+      (rev1Step ms t r = .ok () ↔
+        (r.timelock ≤ ms.base.child ∧
+          (ms.base.child ≤ r.fc.windowStart ∧ r.fc.windowStart < r.fc.windowEnd ∧ ms.isSpent r.parent = false ∧
+            ms.base.child ≤ p.fc.windowStart ∧ p.fc.revNum < r.fc.revNum ∧ r.ucAddr = p.fc.unlockHash ∧
+            (∃ a, sumOuts r.fc.valid = .ok a ∧ sumOuts p.fc.valid = .ok a) ∧
+            (∃ c, sumOuts r.fc.missed = .ok c ∧ sumOuts p.fc.missed = .ok c))))) := by
+  refine ⟨?_, ?_, ?_⟩
+  · rw [validateSiacoins_ok_iff, foldAll_congr (scIn1Ok_iff_timelock ms t), foldAll_and_iff]
+    constructor
+    · rintro ⟨⟨h1, h2⟩, h3⟩; exact ⟨h2, h1, h3⟩
+    · rintro ⟨h2, h1, h3⟩; exact ⟨⟨h1, h2⟩, h3⟩
+  · rw [validateSiafunds_ok_iff]
+    constructor
+    · rintro ⟨h1, h2⟩
+      refine ⟨fun s hs => ?_, fun s hs => ?_, h2⟩
+      · obtain ⟨p, _, hr⟩ := h1 s hs; exact hr.timelock
+      · obtain ⟨p, hp, hr⟩ := h1 s hs; exact ⟨p, hp, hr.notSpent, hr.addr⟩
+    · rintro ⟨h1, h2, h3⟩
+      refine ⟨fun s hs => ?_, h3⟩
+      obtain ⟨p, hp, hr1, hr2⟩ := h2 s hs
+      exact ⟨p, hp, ⟨h1 s hs, hr1, hr2⟩⟩
+  · intro r p hp
+    rw [rev1Step_ok_iff]
+    constructor
+    · rintro ⟨q, hq, hr⟩
+      rw [hp] at hq; cases hq
+      exact ⟨hr.1, hr.2, hr.3, hr.4, hr.5, hr.6, hr.7, hr.8, hr.9⟩
+    · rintro ⟨h1, h2, h3, h4, h5, h6, h7, h8, h9⟩
+      exact ⟨p, hp, ⟨h1, h2, h3, h4, h5, h6, h7, h8, h9⟩⟩
+
+/-- a v1 transaction with a still-locked siacoin input, siafund input or revision is not accepted -/
+theorem c08_uc_timelock_v1_reject (ms : Mid) (t : Txn1) (pid mw : Nat)
+    (h : (∃ sci ∈ t.scIns, sci.timelock > ms.base.child) ∨ (∃ sfi ∈ t.sfIns, sfi.timelock > ms.base.child) ∨
+      (∃ r ∈ t.revs, r.timelock > ms.base.child)) :
+    NotOk (validateTransaction ms t pid mw) := by
+  rcases h with ⟨sci, hm, h⟩ | ⟨sfi, hm, h⟩ | ⟨r, hm, h⟩
+  · apply v1Txn_notOk_of_sc
+    intro _ hr
+    have := ((c08_uc_timelock_v1 ms t).1.1 hr).1 sci hm
+    omega
+  · apply v1Txn_notOk_of_sf
+    intro _ hr
+    have := ((c08_uc_timelock_v1 ms t).2.1.1 hr).1 sfi hm
+    omega
+  · apply v1Txn_notOk_of_fc
+    intro _ hr
+    obtain ⟨p, _, hrules⟩ := ((validateFileContracts_ok_iff ms t pid).1 hr).2.1 r hm
+    have := hrules.timelock
+    omega
+
+example : validateTransaction (M 15) (tSpend1 e0 15) 1015 100 = .ok () := by decide
+example : validateTransaction (M 14) (tSpend1 e0 15) 1014 100 = .error (.reject "siacoin input has timelocked parent") := by decide
+
+-- ================================================================= v1 revision vs. proof window
+
+/-- every rule of a v1 revision except the two window-start rules -/
+structure Rev1Other (ms : Mid) (r : Rev1) (p : Fc1Elem) : Prop where
+  timelock : r.timelock ≤ ms.base.child
+  windowEnd : r.fc.windowStart < r.fc.windowEnd
+  notSpent : ms.isSpent r.parent = false
+  revNum : p.fc.revNum < r.fc.revNum
+  addr : r.ucAddr = p.fc.unlockHash
+  validSum : ∃ a, sumOuts r.fc.valid = .ok a ∧ sumOuts p.fc.valid = .ok a
+  missedSum : ∃ c, sumOuts r.fc.missed = .ok c ∧ sumOuts p.fc.missed = .ok c
+
+/-- A v1 revision of the contract `p` (as it currently stands, i.e. including earlier revisions of
+the block) is accepted iff the window of `p` has not opened (`childHeight ≤ p.windowStart`), the
+new window does not start in the past, and the other rules hold. -/
+theorem c08_v1_window_revision (ms : Mid) (t : Txn1) (r : Rev1) (p : Fc1Elem)
+    (hp : ms.fc1Element t.supp r.parent = some p) :
+    rev1Step ms t r = .ok () ↔
+      ((ms.base.child ≤ p.fc.windowStart ∧ ms.base.child ≤ r.fc.windowStart) ∧ Rev1Other ms r p) := by
+  rw [rev1Step_ok_iff]
+  constructor
+  · rintro ⟨q, hq, hr⟩
+    rw [hp] at hq; cases hq
+    exact ⟨⟨hr.parentWindow, hr.windowStart⟩, ⟨hr.1, hr.3, hr.4, hr.6, hr.7, hr.8, hr.9⟩⟩
+  · rintro ⟨⟨h1, h2⟩, hr⟩
+    exact ⟨p, hp, ⟨hr.1, h2, hr.2, hr.3, h1, hr.4, hr.5, hr.6, hr.7⟩⟩
+
+theorem c08_v1_window_revision_threshold (ms : Mid) (t : Txn1) (r : Rev1) (p : Fc1Elem)
+    (hp : ms.fc1Element t.supp r.parent = some p) (hother : Rev1Other ms r p)
+    (hnew : ms.base.child ≤ r.fc.windowStart) :
+    rev1Step ms t r = .ok () ↔ ms.base.child ≤ p.fc.windowStart := by
+  rw [c08_v1_window_revision ms t r p hp]
+  exact ⟨fun h => h.1.1, fun h => ⟨⟨h, hnew⟩, hother⟩⟩
+
+/-- a v1 transaction revising a contract whose window has opened, or moving the window start into
+the past, is not accepted -/
+theorem c08_v1_window_revision_reject (ms : Mid) (t : Txn1) (pid mw : Nat) (r : Rev1) (p : Fc1Elem)
+    (hm : r ∈ t.revs) (hp : ms.fc1Element t.supp r.parent = some p)
+    (h : p.fc.windowStart < ms.base.child ∨ r.fc.windowStart < ms.base.child) :
+    NotOk (validateTransaction ms t pid mw) := by
+  apply v1Txn_notOk_of_fc
+  intro _ hr
+  obtain ⟨q, hq, hrules⟩ := ((validateFileContracts_ok_iff ms t pid).1 hr).2.1 r hm
+  rw [hp] at hq; cases hq
+  have := hrules.parentWindow
+  have := hrules.windowStart
+  omega
+
+def tRev1 (newStart : Nat) : Txn1 :=
+  { txn1 with revs := [{ parent := 301, timelock := 0, ucAddr := 9, fc := { c1.fc with revNum := 2, windowStart := newStart, windowEnd := 19 } }], supp := { (default : Supp1) with revised := [c1] } }
+
+example : validateTransaction (M 15) (tRev1 16) 1014 100 = .ok () := by decide
+example : validateTransaction (M 15) (tRev1 15) 1014 100 = .ok () := by decide
+example : validateTransaction (M 16) (tRev1 16) 1015 100 =
+    .error (.reject "file contract revision revises contract after its proof window has opened") := by decide
+example : validateTransaction (M 15) (tRev1 14) 1014 100 =
+    .error (.reject "file contract revision has window that starts in the past") := by decide
+
+-- ================================================================= v1 storage proof needs the window-start block
+
+/-- A window id is available for contract `id` iff either the contract is in the block's diff with
+`windowStart = childHeight` (then the parent block is the window-start block) or the supplement
+carries a storage-proof record (contract, window id) for it — which a store can only supply once
+the block at `windowStart` exists. -/
+theorem windowId_isSome_iff (ms : Mid) (ts : Supp1) (id pid : Id) :
+    (∃ w, ms.windowId ts id pid = some w) ↔
+      ((∃ d, ms.fc1Diff? id = some d ∧ d.e.fc.windowStart = ms.base.child) ∨ (∃ x ∈ ts.proofs, x.1.id = id)) := by
+  have hfind : (∃ w, (ts.proofs.find? (·.1.id = id)).map (·.2) = some w) ↔ ∃ x ∈ ts.proofs, x.1.id = id := by
+    constructor
+    · rintro ⟨w, hw⟩
+      cases hf : ts.proofs.find? (·.1.id = id) with
+      | none => rw [hf] at hw; cases hw
+      | some x => exact ⟨x, List.mem_of_find?_eq_some hf, by simpa using List.find?_some hf⟩
+    · rintro ⟨x, hx, hid⟩
+      have : (ts.proofs.find? (·.1.id = id)).isSome := List.find?_isSome.2 ⟨x, hx, by simpa using hid⟩
+      obtain ⟨y, hy⟩ := Option.isSome_iff_exists.1 this
+      exact ⟨y.2, by rw [hy]; rfl⟩
+  unfold Mid.windowId
+  cases hd : ms.fc1Diff? id with
+  | none => simp only [hfind]; simp
+  | some d =>
+    simp only []
+    split
+    · rename_i hw; simp [hw]
+    · rename_i hw; simp only [hfind]; simp [hw]
+
+/-- the in-block case uses the parent block's id -/
+theorem windowId_in_block (ms : Mid) (ts : Supp1) (id pid : Id) (d : Fc1Diff) (hd : ms.fc1Diff? id = some d)
+    (hw : d.e.fc.windowStart = ms.base.child) : ms.windowId ts id pid = some pid := by
+  unfold Mid.windowId; rw [hd]; simp [hw]
+
+/-- A v1 storage proof is accepted iff a window id is available (see `windowId_isSome_iff`) and the
+other rules hold. -/
+theorem c08_v1_proof_window (ms : Mid) (t : Txn1) (pid : Id) (sp : Proof1) :
+    proof1Step ms t pid sp = .ok () ↔
+      (((∃ d, ms.fc1Diff? sp.parent = some d ∧ d.e.fc.windowStart = ms.base.child) ∨
+          (∃ x ∈ t.supp.proofs, x.1.id = sp.parent)) ∧
+        (ms.isSpent sp.parent = false ∧ (∃ e, ms.fc1Element t.supp sp.parent = some e) ∧ sp.proofOk = true)) := by
+  rw [proof1Step_ok_iff, ← windowId_isSome_iff]
+  constructor
+  · rintro ⟨h1, h2, h3, h4⟩; exact ⟨h3, h1, h2, h4⟩
+  · rintro ⟨h3, h1, h2, h4⟩; exact ⟨h1, h2, h3, h4⟩
+
+/-- a v1 transaction with a storage proof for which no window id is available is not accepted -/
+theorem c08_v1_proof_window_reject (ms : Mid) (t : Txn1) (pid mw : Nat) (sp : Proof1) (hm : sp ∈ t.proofs)
+    (h1 : ∀ d, ms.fc1Diff? sp.parent = some d → d.e.fc.windowStart ≠ ms.base.child)
+    (h2 : ∀ x ∈ t.supp.proofs, x.1.id ≠ sp.parent) :
+    NotOk (validateTransaction ms t pid mw) := by
+  apply v1Txn_notOk_of_fc
+  intro _ hr
+  have := ((validateFileContracts_ok_iff ms t pid).1 hr).2.2.2.2 sp hm
+  rcases ((c08_v1_proof_window ms t pid sp).1 ((proof1Step_ok_iff ms t pid sp).2 this)).1 with ⟨d, hd, hw⟩ | ⟨x, hx, hid⟩
+  · exact h1 d hd hw
+  · exact h2 x hx hid
+
+def tProof1 (supp : Supp1) (parent : Id) : Txn1 :=
+  { txn1 with proofs := [{ parent := parent, proofOk := true, outIds := [401] }], supp := supp }
+/-- forms contract 302 with the given window start -/
+def tForm1 (ws : Nat) : Txn1 :=
+  { txn1 with scIns := [{ parent := 100, timelock := 0, ucAddr := 7 }], fees := [10], fcs := [(302, { c1.fc with windowStart := ws, payout := 40, valid := [{ value := 40, addr := 1 }], missed := [{ value := 40, addr := 2 }] })], supp := { (default : Supp1) with scIns := [e0] } }
+
+-- with the supplement record (window-start block 15 exists when the child height is 16)
+example : validateTransaction (M 16) (tProof1 { (default : Supp1) with proofs := [(c1, 1015)] } 301) 1015 100 = .ok () := by decide
+-- without it
+example : validateTransaction (M 15) (tProof1 { (default : Supp1) with revised := [c1] } 301) 1014 100 =
+    .error (.reject "storage proof cannot be submitted until after window start") := by decide
+-- contract formed in the same block with windowStart = childHeight: the parent block is the window-start block
+example : (do validateTransaction (M 15) (tForm1 15) 1014 100
+              let ms ← applyTransaction (M 15) (tForm1 15)
+              validateTransaction ms (tProof1 default 302) 1014 100) = .ok () := by decide
+example : (do validateTransaction (M 15) (tForm1 16) 1014 100
+              let ms ← applyTransaction (M 15) (tForm1 16)
+              validateTransaction ms (tProof1 default 302) 1014 100) =
+    .error (.reject "storage proof cannot be submitted until after window start") := by decide
+
+-- ================================================================= v2 revision vs. proof height
+
+/-- every rule of `validateRevision2` except "the current contract's proof height has not passed" -/
+structure Revision2Other (child ephemeralFix : Nat) (cur rev : Fc2) (sigOk : Bool) : Prop where
+  curNoOverflow : cur.renter.value + cur.host.value < curLimit
+  revNoOverflow : rev.renter.value + rev.host.value < curLimit
+  capacity : cur.capacity ≤ rev.capacity
+  filesize : rev.filesize ≤ rev.capacity
+  revNum : cur.revNum < rev.revNum
+  sum : rev.renter.value + rev.host.value = cur.renter.value + cur.host.value
+  missed : rev.missedHost ≤ cur.missedHost
+  missedFix : ephemeralFix ≤ child → rev.missedHost ≤ rev.host.value
+  collateral : rev.totalCollateral = cur.totalCollateral
+  proofHeight : child ≤ rev.proofHeight
+  exp : rev.proofHeight < rev.expHeight
+  sig : sigOk = true
+
+/-- A v2 revision passes the revision checks iff the proof height of the presented parent *and* of
+the contract as it currently stands (latest in-block revision) are `≥ childHeight`, and the other
+rules hold. -/
+theorem c08_v2_revision_proofheight (ms : Mid) (r : Rev2) :
+    rev2Check ms r = .ok () ↔
+      ((ms.base.child ≤ r.parent.fc.proofHeight ∧ ms.base.child ≤ (ms.curFc2 r.parent).proofHeight) ∧
+        Revision2Other ms.base.child ms.base.P.ephemeralFix (ms.curFc2 r.parent) r.rev r.sigCurOk) := by
+  rw [rev2Check_ok_iff]
+  constructor
+  · rintro ⟨h0, h⟩
+    exact ⟨⟨h0, h.curProofHeight⟩, ⟨h.1, h.2, h.3, h.4, h.6, h.7, h.8, h.9, h.10, h.11, h.12, h.13⟩⟩
+  · rintro ⟨⟨h0, h5⟩, h⟩
+    exact ⟨h0, ⟨h.1, h.2, h.3, h.4, h5, h.5, h.6, h.7, h.8, h.9, h.10, h.11, h.12⟩⟩
+
+theorem c08_v2_revision_proofheight_threshold (ms : Mid) (r : Rev2)
+    (hcur : ms.curFc2 r.parent = r.parent.fc)
+    (hother : Revision2Other ms.base.child ms.base.P.ephemeralFix r.parent.fc r.rev r.sigCurOk) :
+    rev2Check ms r = .ok () ↔ ms.base.child ≤ r.parent.fc.proofHeight := by
+  rw [c08_v2_revision_proofheight, hcur]
+  exact ⟨fun h => h.1.1, fun h => ⟨⟨h, h⟩, hother⟩⟩
+
+/-- a v2 transaction revising a contract after its proof height is not accepted -/
+theorem c08_v2_revision_proofheight_reject (ms : Mid) (t : Txn2) (mw : Nat) (r : Rev2) (hm : r ∈ t.revs)
+    (h : r.parent.fc.proofHeight < ms.base.child ∨ (ms.curFc2 r.parent).proofHeight < ms.base.child) :
+    NotOk (validateV2Transaction ms t mw) := by
+  apply v2Txn_notOk_of_fc
+  intro _ hr
+  have hrules := ((validateV2FileContracts_ok_iff ms t).1 hr).2.1 r hm
+  have := hrules.parentProofHeight
+  have := hrules.revision.curProofHeight
+  omega
+
+def tRev2 : Txn2 := { txn2 with revs := [{ parent := c2, rev := { c2.fc with revNum := 2 }, sigCurOk := true }] }
+
+example : validateV2Transaction (M 15) tRev2 100 = .ok () := by decide
+example : validateV2Transaction (M 16) tRev2 100 =
+    .error (.reject "file contract revision cannot be applied to contract after proof height") := by decide
+
+-- ================================================================= v2 storage proof vs. proof height
+
+/-- A v2 storage proof passes its checks iff `proofHeight ≤ childHeight`, the presented chain index
+has exactly the contract's proof height and is an ancestor of the block (`∈ chain`, which only holds
+blocks below `childHeight`), and the two Merkle verdicts hold. -/
+theorem c08_v2_proof_height (ms : Mid) (r : Resolution2) (ih : Nat) (iid : Id) (leafOk proofOk : Bool)
+    (hr : r.res = .proof ih iid leafOk proofOk) :
+    res2Check ms r = .ok () ↔
+      ((r.parent.fc.proofHeight ≤ ms.base.child ∧ ih = r.parent.fc.proofHeight ∧ (ih, iid) ∈ ms.base.chain) ∧
+        (leafOk = true ∧ proofOk = true)) := by
+  rw [res2Check_ok_iff]; unfold Res2KindRules; rw [hr]
+  constructor
+  · rintro ⟨h1, h2, h3, h4, h5⟩; exact ⟨⟨h1, h2, h4⟩, h3, h5⟩
+  · rintro ⟨⟨h1, h2, h4⟩, h3, h5⟩; exact ⟨h1, h2, h3, h4, h5⟩
+
+/-- a v2 transaction proving storage before the proof height, with an index of another height, or
+with an index that is not an ancestor, is not accepted -/
+theorem c08_v2_proof_height_reject (ms : Mid) (t : Txn2) (mw : Nat) (r : Resolution2) (hm : r ∈ t.ress)
+    (ih : Nat) (iid : Id) (leafOk proofOk : Bool) (hr : r.res = .proof ih iid leafOk proofOk)
+    (h : ms.base.child < r.parent.fc.proofHeight ∨ ih ≠ r.parent.fc.proofHeight ∨ (ih, iid) ∉ ms.base.chain) :
+    NotOk (validateV2Transaction ms t mw) := by
+  apply v2Txn_notOk_of_fc
+  intro _ hok
+  have hrules := (((validateV2FileContracts_ok_iff ms t).1 hok).2.2.2.1 r hm).kind
+  have := ((c08_v2_proof_height ms r ih iid leafOk proofOk hr).1 ((res2Check_ok_iff ms r).2 hrules)).1
+  rcases h with h | h | h
+  · omega
+  · exact h this.2.1
+  · exact h this.2.2
+
+def tRes2 (res : Res2) : Txn2 := { txn2 with ress := [{ parent := c2, res := res, renterOutId := 601, hostOutId := 602 }] }
+
+example : validateV2Transaction (M 16) (tRes2 (.proof 15 1015 true true)) 100 = .ok () := by decide
+-- at child height 15 block 15 is not an ancestor yet
+example : validateV2Transaction (M 15) (tRes2 (.proof 15 1015 true true)) 100 =
+    .error (.reject "file contract storage proof has invalid history proof") := by decide
+example : validateV2Transaction (M 14) (tRes2 (.proof 15 1015 true true)) 100 =
+    .error (.reject "file contract storage proof cannot be submitted until after proof height") := by decide
+example : validateV2Transaction (M 16) (tRes2 (.proof 14 1014 true true)) 100 =
+    .error (.reject "file contract storage proof has ProofIndex height that does not match contract ProofHeight") := by decide
+
+-- ================================================================= v2 expiration
+
+/-- a v2 expiration passes its check iff `expirationHeight < childHeight` -/
+theorem c08_v2_expiration (ms : Mid) (r : Resolution2) (hr : r.res = .expiration) :
+    res2Check ms r = .ok () ↔ r.parent.fc.expHeight < ms.base.child := by
+  rw [res2Check_ok_iff]; unfold Res2KindRules; rw [hr]
+
+theorem c08_v2_expiration_reject (ms : Mid) (t : Txn2) (mw : Nat) (r : Resolution2) (hm : r ∈ t.ress)
+    (hr : r.res = .expiration) (h : ms.base.child ≤ r.parent.fc.expHeight) :
+    NotOk (validateV2Transaction ms t mw) := by
+  apply v2Txn_notOk_of_fc
+  intro _ hok
+  have hrules := (((validateV2FileContracts_ok_iff ms t).1 hok).2.2.2.1 r hm).kind
+  have := (c08_v2_expiration ms r hr).1 ((res2Check_ok_iff ms r).2 hrules)
+  omega
+
+example : validateV2Transaction (M 19) (tRes2 .expiration) 100 = .ok () := by decide
+example : validateV2Transaction (M 18) (tRes2 .expiration) 100 =
+    .error (.reject "file contract expiration cannot be submitted until after expiration height") := by decide
+
+-- ================================================================= hardfork heights
+
+/-- from the v2 require height on every v1 transaction is rejected … -/
+theorem c08_v1_forbidden_from (ms : Mid) (t : Txn1) (pid mw : Nat) (h : ms.base.child ≥ ms.base.P.v2Require) :
+    Rejected (validateTransaction ms t pid mw) := by
+  rw [validateTransaction_eq]; unfold v1TxnChecks
+  rw [if_pos h]; simp
+
+/-- … and below it the rule does not fire: acceptance is `childHeight < v2Require` ∧ the other validators -/
+theorem c08_v1_forbidden_from_threshold (ms : Mid) (t : Txn1) (pid mw : Nat)
+    (hother : validateCurrencyOverflow t = .ok () ∧ t.weight ≤ mw ∧
+       validateMinimumValues t = .ok () ∧ validateSiacoins ms t = .ok () ∧ validateSiafunds ms t = .ok () ∧
+       validateFileContracts ms t pid = .ok () ∧ validateArbitraryData ms t = .ok () ∧ validateSignatures t = .ok ()) :
+    validateTransaction ms t pid mw = .ok () ↔ ms.base.child < ms.base.P.v2Require := by
+  rw [validateTransaction_ok_iff]
+  exact ⟨fun h => h.1, fun h => ⟨h, hother⟩⟩
+
+/-- a block with v1 transactions or expiring v1 contracts is rejected from the require height on -/
+theorem c08_v1_forbidden_from_supplement (L : Ledger) (b : Block) (h : L.child ≥ L.P.v2Require)
+    (hne : b.txns1.length ≠ 0 ∨ b.expiring.length ≠ 0) : Rejected (validateSupplement L b) := by
+  unfold validateSupplement
+  simp only [reject_bind]
+  rw [if_pos ⟨h, hne⟩]
+  simp
+
+example : validateTransaction (M 19) (tSpend1 e0 0) 1018 100 = .ok () := by decide
+example : validateTransaction (M 20) (tSpend1 e0 0) 1019 100 =
+    .error (.reject "v1 transactions are not allowed after v2 hardfork is complete") := by decide
+
+/-- before the v2 allow height every v2 transaction is rejected … -/
+theorem c08_v2_allowed_from (ms : Mid) (t : Txn2) (mw : Nat) (h : ms.base.child < ms.base.P.v2Allow) :
+    Rejected (validateV2Transaction ms t mw) := by
+  rw [validateV2Transaction_eq]; unfold v2TxnChecks
+  rw [if_pos h]; simp
+
+/-- … and from it on the rule does not fire -/
+theorem c08_v2_allowed_from_threshold (ms : Mid) (t : Txn2) (mw : Nat)
+    (hother : validateV2CurrencyOverflow t = .ok () ∧ t.weight ≠ 0 ∧
+       t.weight ≤ mw ∧ validateV2Siacoins ms t = .ok () ∧ validateV2Siafunds ms t = .ok () ∧
+       validateV2FileContracts ms t = .ok () ∧ t.attsOk = true ∧ validateFoundationUpdate ms t = .ok ()) :
+    validateV2Transaction ms t mw = .ok () ↔ ms.base.P.v2Allow ≤ ms.base.child := by
+  rw [validateV2Transaction_ok_iff]
+  exact ⟨fun h => h.1, fun h => ⟨h, hother⟩⟩
+
+example : validateV2Transaction (M 10) (tSpend2 e0) 100 = .ok () := by decide
+example : validateV2Transaction (M 9) (tSpend2 e0) 100 =
+    .error (.reject "v2 transactions are not allowed until v2 hardfork begins") := by decide
 
 end C08
